@@ -9,6 +9,7 @@ from facts import AnalysisBroken, CALL_KINDS
 from result import Result
 from paths import root_of
 import p_c18 as _c18  # field_writes / contains_new
+import effects as FX
 
 PAYLOAD = ['ezc3d::DataNS::Points3dNS::Points', 'ezc3d::DataNS::Points3dNS::Point',
            'ezc3d::DataNS::AnalogsNS::Analogs', 'ezc3d::DataNS::AnalogsNS::SubFrame',
@@ -224,6 +225,36 @@ def ownership_rules(prog, res, rule_prefix='own'):
                              'points/analogs with the source' % (what, kind, '.'.join(path), q.split('::')[-1]),
                              function=f.sig, expr='%s->%s.%s' % (what, kind, '.'.join(path)))
     res.info['aliasing_copy_sites'] = ncopies
+
+    # (no-write-through) a non-const method of a handle class never modifies the payload behind a handle
+    # (copies of the object share it); it may only replace the handle by a fresh payload — and the
+    # whole-object replacement add(const Frame&) replaces every handle on every path
+    E = FX.get(prog)
+    for q, a in sorted(al.items()):
+        if not a['copyable'] or not a['handles']:
+            continue
+        for f in prog.repo_funcs():
+            if f.cls != q or f.kind != 'method' or f.rec.get('const'):
+                continue
+            deep = sorted({FX.fmt(e) for e in E.of(f) if e[0] == 'this' and len(e[1]) > 1 and e[1][0] in a['handles']})
+            if deep:
+                res.viol(R('no-write-through'), '%s::%s' % (q.split('::')[-1], f.name), f.loc(),
+                         'modifies the payload behind a handle in place (%s): every copy of this %s shares that payload and changes with it' % (deep[:2], q.split('::')[-1]),
+                         function=f.sig, expr='deep')
+            else:
+                res.ok(R('no-write-through'), '%s::%s(%s)' % (q.split('::')[-1], f.name, ','.join(p_['type'].split('::')[-1] for p_ in f.params)), f.loc(),
+                       'only replaces handles', function=f.sig, expr='deep', nontrivial=False)
+            # replacement by another object of the same class: all handles, unconditionally
+            if len(f.params) == 1 and f.params[0]['type'].replace('const ', '').replace(' &', '') == q:
+                g = f.events()
+                for h in a['handles']:
+                    vs = {g.vertex_of.get(e[0]) for e in E.events_of(f, 'this') if e[2] == (h,) and e[3] == 'assign'}
+                    vs.discard(None)
+                    if not vs or g.NEXIT in g.reach([g.ENTRY], avoid=vs):
+                        res.viol(R('no-write-through'), '%s::%s replaces %s' % (q.split('::')[-1], f.name, h), f.loc(),
+                                 'a path through %s(const %s&) leaves %s as it was: the target keeps part of its old content' % (f.name, q.split('::')[-1], h), function=f.sig, expr='replace:' + h)
+                    else:
+                        res.ok(R('no-write-through'), '%s::%s replaces %s on every path' % (q.split('::')[-1], f.name, h), f.loc(), function=f.sig, expr='replace:' + h)
 
     # (no-handle-leak) no public method hands out a handle --------------------------------------
     nmeth = 0
